@@ -173,7 +173,7 @@ def rule_exits(ctx, repo):
                   "System.setup can return False without raising exit_code", f.W(r))
         ok = any(Q.match("self.is_setup = True", f.g.data(n)["ast"]) for n in f.g.nodes() if f.g.data(n)["kind"] == "stmt")
         t = f.tests(lambda c: c.replace(" ", "") == "retisTrue")
-        ok = ok and bool(t) and all(f.g.guarded_by(n, t[0], "true") for n in f.g.nodes()
+        ok = ok and bool(t) and all(any(f.g.guarded_by(n, tt, "true") for tt in t) for n in f.g.nodes()
                                     if f.g.data(n)["kind"] == "stmt" and Q.match("self.is_setup = True", f.g.data(n)["ast"]))
         ctx.check(ok, "C17.success", "System.setup/is_setup", "is_setup only when no error occurred",
                   "is_setup can be set although a step failed", f.W())
@@ -199,6 +199,19 @@ def rule_main(ctx, repo):
     t = [tn for tn in f.g.nodes() if f.g.data(tn)["kind"] == "test" and Q.match("cli is True", f.g.data(tn)["ast"].test)]
     ok = bool(t) and any(src(f.g.data(r)["ast"].value) == "ex_code" and f.g.guarded_by(r, t[0], "true") for r in f.returns())
     ctx.check(ok, "C17.aggregate", "main.run/cli", "cli returns the exit code", "cli no longer returns the aggregated exit code", f.W())
+    # every process entry point hands main()'s return value to the interpreter's exit status: the console script does it through
+    # setuptools (`andes = andes.cli:main`); the module entry point (python -m andes) must do it itself
+    mm = repo.module("andes/__main__.py")
+    calls = [c for c in ast.walk(mm) if isinstance(c, ast.Call) and dotted(c.func) == "main"]
+    exits = [c for c in ast.walk(mm) if isinstance(c, ast.Call) and dotted(c.func) in ("sys.exit", "exit", "SystemExit", "raise SystemExit")
+             and any(isinstance(x, ast.Call) and dotted(x.func) == "main" for a_ in c.args for x in ast.walk(a_))]
+    raises = [r_ for r_ in ast.walk(mm) if isinstance(r_, ast.Raise) and r_.exc is not None and "SystemExit" in src(r_.exc) and "main(" in src(r_.exc)]
+    cm = F.function(repo, "andes/cli.py", "main")
+    returns_code = any(isinstance(cm.g.data(r_)["ast"].value, ast.Call) for r_ in cm.returns())
+    ctx.check(bool(calls) and bool(exits or raises) and returns_code, "C17.aggregate", "__main__/exit-status",
+              "python -m andes exits with main()'s return value",
+              "`andes/__main__.py` calls main() and drops its return value: `python -m andes ...` exits 0 whatever failed (missing file, "
+              "diverged power flow)", "andes/__main__.py:%d" % (calls[0].lineno if calls else 1))
     ok = any(Q.match("ex_code = 1", f.g.data(n)["ast"]) for n in f.g.nodes() if f.g.data(n)["kind"] == "stmt")
     ctx.check(ok, "C17.aggregate", "main.run/not-found", "file specified but not found => exit code 1",
               "missing input file no longer yields a non-zero exit code", f.W())
@@ -402,7 +415,7 @@ def run(ctx):
              "exit_code increment (frozen exception: repeated setup())", 9)
     ctx.rule("C17.success", "success flags are dominated by the routine's own residual / termination test", 6)
     ctx.rule("C17.gate", "dependent computations are dominated by a PFlow.converged / is_setup / pre-check gate with early return", 6)
-    ctx.rule("C17.aggregate", "CLI aggregation: failed load, None system, lists, missing file, parse failures", 7)
+    ctx.rule("C17.aggregate", "CLI aggregation: failed load, None system, lists, missing file, parse failures; entry points propagate the exit status", 8)
     ctx.rule("C17.nan", "NaN exits precede state updates / success; the convergence measure is NaN-propagating", 5)
     ctx.rule("C17.sentinel", "linear-solver NaN sentinel propagation (rules shared with C16)", 4)
     ctx.assume("that every ill-posed input actually triggers one of these exits is a runtime fact: declined")
